@@ -35,7 +35,7 @@ var lim = interp.Limits{MaxElem: 1 << 20}
 func check(ctx *pbt.Ctx, c libexec.Prog) error {
 	flags := interp.Flags(c.Flags)
 	model := c.Ctx.Model(c.Unlock, c.Lock)
-	r := interp.VerifyScript(c.Unlock, c.Lock, flags, interp.TxChecker{Tx: model, Idx: 0, Amount: c.Ctx.Amount}, true, lim)
+	r := interp.VerifyScript(c.Unlock, c.Lock, flags, interp.TxChecker{Tx: model, Idx: c.Ctx.Index(), Amount: c.Ctx.Amount}, true, lim)
 	if r.BudgetHit {
 		ctx.Discard("over_budget")
 		return nil
@@ -50,6 +50,9 @@ func check(ctx *pbt.Ctx, c libexec.Prog) error {
 	}
 	libOK := out.Err == nil
 	ctx.Label("level=" + c.Level)
+	if c.Ctx.Index() > 0 {
+		ctx.Label("checked_input_is_not_input_0")
+	}
 	if flags.Has(interp.FlagAfterGenesis) {
 		ctx.Label("era=post")
 	} else {
@@ -90,7 +93,17 @@ func genCtx(t *rapid.T) libexec.TxCtx {
 		LockTime: rapid.SampledFrom([]uint32{0, 1, 100, 70000, 499999999, 500000000, 500000001, 0xffffffff}).Draw(t, "locktime"),
 		Seq:      rapid.SampledFrom([]uint32{0, 1, 100, 0xffff, 0x10000, 70000, 1 << 22, 1<<22 + 5, 1 << 31, 0xfffffffe, 0xffffffff}).Draw(t, "seq"),
 		Amount:   uint64(rapid.IntRange(0, 3).Draw(t, "amount")),
+		NBefore:  rapid.SampledFrom([]int{0, 0, 1, 1, 2, 3}).Draw(t, "nbefore"),
+		NAfter:   rapid.SampledFrom([]int{0, 0, 1, 2}).Draw(t, "nafter"),
+		OtherSeq: otherSeq(t),
 	}
+}
+
+// otherSeq is the sequence number of the inputs that are not checked: final, not final, with the
+// relative-lock-time disable bit / type flag set or not (whatever the checked input carries, the
+// lock-time opcodes must read the checked input's).
+func otherSeq(t *rapid.T) uint32 {
+	return rapid.SampledFrom([]uint32{0, 1, 5, 0xffff, 1 << 22, 1<<22 + 5, 1 << 31, 1<<31 + 5, 0xfffffffe, 0xffffffff}).Draw(t, "other_seq")
 }
 
 func genProg(t *rapid.T) libexec.Prog {
@@ -103,7 +116,8 @@ func genProg(t *rapid.T) libexec.Prog {
 		p = sgen.P2SHLookalike(t, flags)
 	case 11:
 		lp, lc := sgen.LockTimeProgram(t, flags)
-		return libexec.Prog{Unlock: lp.Unlock, Lock: lp.Lock, Flags: uint32(lp.Flags), Ctx: libexec.TxCtx{Version: lc.Version, LockTime: lc.LockTime, Seq: lc.Seq, Amount: 1}, Level: lp.Level}
+		return libexec.Prog{Unlock: lp.Unlock, Lock: lp.Lock, Flags: uint32(lp.Flags), Ctx: libexec.TxCtx{Version: lc.Version, LockTime: lc.LockTime, Seq: lc.Seq, Amount: 1,
+			NBefore: rapid.SampledFrom([]int{0, 1, 1, 2}).Draw(t, "nbefore"), NAfter: rapid.SampledFrom([]int{0, 0, 1}).Draw(t, "nafter"), OtherSeq: otherSeq(t)}, Level: lp.Level}
 	case 0:
 		p = sgen.RandomOps(t, flags, excludeSig)
 	case 1, 2:
